@@ -109,12 +109,12 @@ fn main() {
                         let path = std::path::PathBuf::from(format!("{}/c07_input.aelys", tmpd));
                         let src = Source::new(path.display().to_string(), &content);
                         stage(idx, "lex");
-                        let tokens = match Lexer::with_source(src.clone()).scan() { Ok(t) => t, Err(_) => return "err:lex".into() };
+                        let tokens = match Lexer::with_source(src.clone()).scan() { Ok(t) => t, Err(e) => { stage(idx, "render-lex"); let _ = e.to_string(); return "err:lex".into() } };
                         stage(idx, "parse");
-                        let stmts = match Parser::new(tokens, src.clone()).parse() { Ok(s) => s, Err(_) => return "err:parse".into() };
+                        let stmts = match Parser::new(tokens, src.clone()).parse() { Ok(s) => s, Err(e) => { stage(idx, "render-parse"); let _ = e.to_string(); return "err:parse".into() } };
                         stage(idx, "modules");
-                        let mut vm = match VM::with_config_and_args(src.clone(), VmConfig::default(), Vec::new()) { Ok(v) => v, Err(_) => return "err:vm".into() };
-                        let (imports, _loader) = match load_modules_with_loader(&stmts, &path, src.clone(), &mut vm) { Ok(x) => x, Err(_) => return "err:modules".into() };
+                        let mut vm = match VM::with_config_and_args(src.clone(), VmConfig::default(), Vec::new()) { Ok(v) => v, Err(e) => { stage(idx, "render-vm"); let _ = e.to_string(); return "err:vm".into() } };
+                        let (imports, _loader) = match load_modules_with_loader(&stmts, &path, src.clone(), &mut vm) { Ok(x) => x, Err(e) => { stage(idx, "render-modules"); let _ = e.to_string(); return "err:modules".into() } };
                         let main_stmts: Vec<_> = stmts.into_iter().filter(|s| !matches!(s.kind, StmtKind::Needs(_))).collect();
                         let mut known = imports.known_globals.clone();
                         for b in ["alloc", "free", "load", "store", "type"] { known.insert(b.to_string()); }
@@ -123,7 +123,7 @@ fn main() {
                         aliases.extend(vm.repl_module_aliases().iter().cloned());
                         stage(idx, "infer");
                         let typed = match aelys_sema::TypeInference::infer_program_with_imports(main_stmts, src.clone(), aliases.clone(), known) {
-                            Ok(t) => t, Err(_) => return "err:infer".into() };
+                            Ok(t) => t, Err(e) => { stage(idx, "render-infer"); let _ = e.iter().map(|x| format!("{}", x)).collect::<Vec<_>>().join("\n"); return "err:infer".into() } };
                         stage(idx, "optimize");
                         let mut optimizer = Optimizer::new(opt_level(if idx % 2 == 0 { 2 } else { 3 }));
                         let typed = optimizer.optimize(typed);
@@ -143,7 +143,7 @@ fn main() {
                         let mut so = imports.symbol_origins.clone();
                         for (k, v) in vm.repl_symbol_origins() { so.entry(k.clone()).or_insert_with(|| v.clone()); }
                         let (function, heap, _g) = match Compiler::with_modules(None, src.clone(), aliases, kg, ng, so).compile_typed(&typed) {
-                            Ok(x) => x, Err(_) => return "err:codegen".into() };
+                            Ok(x) => x, Err(e) => { stage(idx, "render-codegen"); let _ = e.to_string(); return "err:codegen".into() } };
                         stage(idx, "execute");
                         let o = run_original(vm, function, heap, budget);
                         match o.class.as_str() { "ok" => "ok".into(), "budget" => "budget".into(), "panic" => { std::panic::resume_unwind(Box::new(o.detail)); } _ => "err:execute".into() }
